@@ -36,6 +36,8 @@ CONFIG = dict(
         "Rbgp.Api.Props.from_api_wf",
         "Rbgp.Api.Props.from_api_wf_nlri",
         "Rbgp.Api.Props.listed_same_as_added",
+        "Rbgp.Api.Props.typed_mp_reach_stored",
+        "Rbgp.Api.Props.further_next_hops_dropped",
         "Rbgp.Api.Props.listed_same_as_added_nlri",
         "Rbgp.Api.Props.listed_path_same_as_added",
         "Rbgp.Api.Props.next_hop_not_listed",
@@ -92,23 +94,29 @@ CONFIG = dict(
                   "harness/daemon/c17.rs: builds UPDATE frames / prost messages from the case term and prints the observation"],
     theorem_backed=["ORIGIN", "AS_PATH", "NEXT_HOP (API side)", "MULTI_EXIT_DISC", "LOCAL_PREF", "ATOMIC_AGGREGATE", "AGGREGATOR",
                     "COMMUNITIES", "ORIGINATOR_ID", "CLUSTER_LIST", "EXTENDED_COMMUNITIES (all typed shapes + raw)",
-                    "LARGE_COMMUNITIES", "AIGP / MP_REACH / MP_UNREACH as raw", "unrecognised optional transitive attributes",
+                    "LARGE_COMMUNITIES", "AIGP / MP_REACH / MP_UNREACH as raw", "typed MpReachNlriAttribute (family range, FlowSpec without next hop, IPv4 / IPv6 next hop; one next hop)", "unrecognised optional transitive attributes",
                     "IPv4 / IPv6 prefix", "labeled IPv4 / IPv6 prefix", "VPNv4 / VPNv6 prefix + route distinguisher",
                     "GrpcService::local_path + add_path + list_path + destination_to_api (attribute selection, defaults, listing)",
                     "attribute / message size (u16 length sum modelled; values bounded at the API)"],
     hypothesis_backed=["BGP-LS attribute TLVs", "TUNNEL_ENCAP", "PREFIX_SID", "FlowSpec v4/v6/VPN NLRI", "EVPN NLRI", "MUP NLRI",
-                       "SR-policy NLRI", "RTC NLRI", "BGP-LS NLRI", "api::MpReach / TunnelEncap / PrefixSid / Ls / EVPN / "
+                       "SR-policy NLRI", "RTC NLRI", "BGP-LS NLRI", "api::TunnelEncap / PrefixSid / Ls / EVPN / "
                        "SR-policy / RTC / FlowSpec API messages (never-panics, safe, stable, listed as sent)",
                        "fields of the TunnelEncap / SR-policy / Ls / LsAddrPrefix / FlowSpec / MpReach messages that are narrower on the "
                        "wire than in the message (refused when out of range, listed as sent otherwise)",
+                       "read-back of every accepted value of these kinds: its wire form must decode (real UPDATE parser) to the same "
+                       "value - implementation-side oracle, no theorem (found F17p/F17q/F17r)",
+                       "request families and policy numbers (Path.family / ListPath family vs NLRI kind and wire width, afi-safi-in, "
+                       "prefix-set mask lengths): implementation-side oracle",
                        "RPKI validation state shown by ListPath",
                        "AddPath -> ListPath -> DeletePath(uuid) -> ListPath on the global table and into / from a VRF (what is kept "
                        "under the uuid is what was inserted): model and implementation compared, no theorem for the VRF case"],
     modelled_not_verified=["the VRF variant of the grpc case (vrf_export_path, collect_vrf_paths) and the number of paths listed after "
                            "DeletePath(uuid): in the model and compared with the implementation; check_run_ok covers the global table only "
                            "and the oracle has no clause on the add / delete life cycle (not this property's subject)",
-                           "convert::family_from_api (Path.family, ListPath family) and the policy converters (afi_safi_in, prefix-set mask "
-                           "lengths) still narrow API numbers with `as`: not driven",
+                           "the four peer-configuration callers of convert::family_from_api in event/grpc.rs (AddPeer / peer-group afi-safis, "
+                           "GR / LLGR families) still narrow API numbers with `as`: not driven (peer configuration)",
+                           "FlowSpec, EVPN, MUP, SR-policy, RTC, BGP-LS NLRI and TUNNEL_ENCAP / PREFIX_SID / BGP-LS attributes have no Lean "
+                           "model: no round-trip / totality theorem, only the implementation-side oracle above",
                            "kinds listed under hypothesis_backed: explored implementation-only (pristine GoBGP fixtures must round-trip "
                            "exactly, one oracle clause per TLV type / NLRI type; mutated ones must not panic and must display stably; "
                            "API messages of these kinds must never panic, and what is accepted must be safe, stable and listed as sent)",
@@ -381,10 +389,21 @@ def gen_big_api(r):
     return "(attr-wire 200 208 %s)" % hx([i & 0xff for i in range(n)])
 
 
+def gen_mp_reach(r):
+    """typed MpReachNlriAttribute: family (missing, ordinary, FlowSpec, out of range) and 0-3 next hops as text"""
+    fam = r.pick(["none", "(1 1)", "(2 1)", "(2 1)", "(1 128)", "(2 128)", "(1 4)", "(1 133)", "(2 133)", "(1 134)", "(2 134)",
+                  "(3 133)", "(25 70)", "(16388 71)", "(0 0)", "(65535 255)", "(65536 1)", "(65537 1)", "(1 256)", "(1 389)",
+                  "(4294967295 1)", "(1 4294967295)"])
+    nhs = " ".join(astr(r, r.pick(["ip4", "ip6", "ip6"]), 12) for _ in range(r.pick([0, 1, 1, 1, 2, 3])))
+    return "(mp-reach %s (%s))" % (fam, nhs)
+
+
 def gen_attr_api(r):
     if r.chance(1, 150):
         return gen_big_api(r)
-    k = r.below(22)
+    k = r.below(24)
+    if k >= 22:
+        return "(attr-api %s)" % gen_mp_reach(r)
     if k == 0:
         return "(attr-api (origin %d))" % r.pick([0, 1, 2, 2, 3, 255, 256, 4294967295])
     if k in (1, 2, 3):
@@ -533,7 +552,7 @@ def ls_tlv_types(b):
 
 def gen_explore_api(r):
     """prost messages of kinds outside the model: must never panic; what is accepted must be safe and stable"""
-    k = r.below(15)
+    k = r.below(18)
     strs = lambda n: "(%s)" % " ".join(astr(r, r.pick(["ip4", "ip6"]), 30) for _ in range(n))
     n6 = lambda: " ".join(str(r.pick([0, 1, 2, 3, 4, 5, 24, 33, 129, 255, 256, 16777215, 16777216, 4294967295])) for _ in range(6))
     if k == 0:
@@ -566,10 +585,19 @@ def gen_explore_api(r):
         return "(x api-ls-attr (%d %d %d %d %d %d) () x)" % (r.below(3), w(), w(), w(), w(), w())
     if k == 13:
         return "(x api-ls-nlri (%d %d %d) () x)" % (r.below(3), r.pick([1, 2, 3, 7, 255, 256, 258, 4294967295]), w())
+    if k == 15:
+        fam = r.pick([(1, 1), (2, 1), (1, 128), (25, 70), (0, 0), (65535, 255), (65536, 1), (65537, 1), (1, 257), (4294967295, 1)])
+        return "(x api-path-family (%d %d) () x)" % fam
+    if k == 16:
+        fam = r.pick([(1, 1), (2, 1), (1, 128), (65537, 1), (1, 257), (65536 + 2, 256 + 1), (4294967295, 4294967295)])
+        return "(x api-afi-safi-in (%d %d) () x)" % fam
+    if k == 17:
+        return "(x api-prefix-set (%d %d) () x)" % (r.pick([0, 8, 24, 32, 256 + 8, 65536 + 8]), r.pick([8, 24, 32, 128, 255, 256 + 24, 65536 + 32]))
     if k == 14:
         fam = r.pick([(1, 133), (2, 133)])
-        return "(x api-flowspec-rules (%d %d %d %d %d) () x)" % (fam[0], fam[1], r.pick([0, 8, 24, 32, 64, 128, 256 + 24, 65536 + 8]),
-                                                              r.pick([0, 0, 8, 256, 65536 + 8]), r.pick([1, 0x81, 0x101, 65536 + 1]))
+        return "(x api-flowspec-rules (%d %d %d %d %d %d) () x)" % (fam[0], fam[1], r.pick([0, 8, 24, 32, 64, 128, 256 + 24, 65536 + 8]),
+                                                                 r.pick([0, 0, 8, 256, 65536 + 8]),
+                                                                 r.pick([1, 0x81, 0x03, 0x45, 0x31, 0xb1, 0xc1, 0x101, 65536 + 1]), r.pick([0, 1, 1, 2, 3]))
     fam = r.pick([(1, 1), (2, 1), (1, 133), (25, 70), (1, 128), (16388, 71)])
     return "(x api-prefix-family (%d %d %d) %s x)" % (fam[0], fam[1], r.pick([0, 8, 24, 32, 33, 128]), strs(1))
 
@@ -649,6 +677,8 @@ def gen_grpc(r):
             elif m == 2:
                 b = b[:-1]
             attrs.append("(unknown %d 14 %s)" % (r.pick([0, 0x80]), hx(b)))
+        elif j == 12 and r.chance(1, 2):
+            attrs.append(gen_mp_reach(r))
         elif j == 12:
             attrs.append("(unknown %d %d %s)" % (r.pick([0xc0, 0xe0, 0x80]), r.pick([200, 99]), hx(rand_bytes(r, r.pick([0, 1, 4])))))
         else:
